@@ -514,7 +514,31 @@ def r12_9(ctx: Ctx, rule: str = "R12.9") -> None:
                   construct=f"{m.name} does not follow links")
 
 
+def r12_11(ctx: Ctx, rule: str = "R12.11") -> None:
+    """the pass that sets times and modes after extraction stamps FILES it extracted: os.utime and chmod follow links, and a later member may
+    have put a link in a file's place ('l', then a link member 'x/../l' -> the archive): every utime/chmod of that loop is dominated by a test
+    that the path is a link now, whose true arm goes on to the next entry.  Otherwise the mode and time of a file that is no longer there land
+    on whatever the link points to - the archive that is being read, for one (mode 000)."""
+    f = shared.szf(ctx, "_extract")
+    cfg = cfg_of(f.node)
+    sinks = [c for c in q.calls(f) if (dotted(c.func) == "os.utime" or attr_tail(c) in ("chmod", "utime")) and q.enclosing_loops(f, c)]
+    ctx.floor(rule, len(sinks), 2, "utime/chmod calls in the post-pass of _extract")
+    for c in sinks:
+        lp = q.enclosing_loops(f, c)[-1]
+        ok = False
+        for t in cfg.nodes:
+            if t.kind == "test" and any(isinstance(x, ast.Call) and (dotted(x.func) == "os.path.islink" or attr_tail(x) == "is_symlink") for x in ast.walk(t.ast)) \
+                    and cfg.dominates(t, q.node_for(f, c)) and any(t.ast is x for st in lp.body for x in ast.walk(st)):
+                te = next((e for e in t.succ if e.kind == "true"), None)
+                if te is not None and not cfg.reaches(te, q.node_for(f, c), avoid=[cfg.by_ast[lp]]):
+                    ok = True
+        ctx.check(ok, rule, f, c, "times and modes are set on extracted files, not through a link that took a file's place",
+                  f"`{norm(c)[:70]}` follows links: when a later member replaced the file by a link (members 'l' and 'x/../l' -> the archive, extracted into the archive's directory) the "
+                  "mode and time of the vanished file are put on the link's target - the archive being read ends up with mode 000", construct="post-pass through a replaced entry")
+
+
 def run(ctx: Ctx) -> None:
+    r12_11(ctx)
     r12_9(ctx)
     r12_8(ctx)
     from . import c06 as _c06x
